@@ -42,6 +42,9 @@ MUTS = [
  ("S4", "seeded class: default_resolver falls through to getattr for a Mapping parent lacking the key", "src/py_gql/execution/default_resolver.py", "    if __isinstance(root, __mapping_cls):\n        return root.get(info.field_definition.python_name, None)\n", "    if __isinstance(root, __mapping_cls) and info.field_definition.python_name in root:\n        return root[info.field_definition.python_name]\n"),
  ("S6", "seeded class: merged sub-selections built IN PLACE on the first node's selection list", EX, "                self.collect_fields(\n                    runtime_type,\n                    [\n                        selection\n                        for field in nodes\n                        if field.selection_set\n                        for selection in field.selection_set.selections\n                    ],\n                ),", "                self.collect_fields(\n                    runtime_type,\n                    _merged_in_place(nodes),\n                ),"),
  ("S7", "seeded class: TypeInfoVisitor.leave_inline_fragment pops only for typed fragments", "src/py_gql/validation/visitors.py", "    def leave_inline_fragment(self, _node):\n        self._type_stack.pop()", "    def leave_inline_fragment(self, _node):\n        if _node.type_condition:\n            self._type_stack.pop()"),
+ ("S8", "seeded class: resolve_type memoises __typename__ per Python CLASS of the value (non-dict values)", EX, "            maybe_type = (\n                value.get(\"__typename__\", None)\n                if isinstance(value, dict)\n                else getattr(value, \"__typename__\", None)\n            )", "            if isinstance(value, dict):\n                maybe_type = value.get(\"__typename__\", None)\n            else:\n                _c = self.__dict__.setdefault(\"_runtime_types\", {})\n                if type(value) not in _c:\n                    _c[type(value)] = getattr(value, \"__typename__\", None)\n                maybe_type = _c[type(value)]"),
+ ("S9", "seeded class: _same_arguments drops explicit null literals before comparing", "src/py_gql/validation/rules/overlapping_fields_can_be_merged.py", "    if len(args_1) != len(args_2):\n        return False\n\n    s1 = sorted(args_1", "    args_1 = [a for a in args_1 if not isinstance(a.value, _ast.NullValue)]\n    args_2 = [a for a in args_2 if not isinstance(a.value, _ast.NullValue)]\n    if len(args_1) != len(args_2):\n        return False\n\n    s1 = sorted(args_1"),
+ ("S10", "seeded class: fragment-pair memo looked up under the sorted key but stored under the unsorted one", "src/py_gql/validation/rules/overlapping_fields_can_be_merged.py", "    ctx.compared_fragment_pairs.add(cache_key)  # type: ignore", "    ctx.compared_fragment_pairs.add(((fragment_1, fragment_2), mutually_exclusive))  # type: ignore"),
  ("S3", "seeded class: _find_conflict tests isinstance(parent_1, ObjectType) twice", "src/py_gql/validation/rules/overlapping_fields_can_be_merged.py", "        and isinstance(parent_1, ObjectType)\n        and isinstance(parent_2, ObjectType)", "        and isinstance(parent_1, ObjectType)\n        and isinstance(parent_1, ObjectType)"),
 ]
 
